@@ -787,7 +787,10 @@ func VH_OP4_read() {
 	vSubst("(*decoder).readOp", vReadOpModel)
 	vSubst("(*decoder).apply", vApplyModel)
 	vUnwind(8)
-	capN := 4096 + vConcretize(int(vNondetU8("extra"))%2)
+	extra := vConcretize(int(vNondetU8("extra")) % 2)
+	plen := vConcretize(int(vNondetU8("plen")) % 4)
+	vAssume((extra*4+plen)%vShards() == vShardIdx())
+	capN := 4096 + extra
 	dd, err := newDecoderDict(capN)
 	vAssert(err == nil, "dictionary")
 	ringLen := capN + 1
@@ -804,7 +807,6 @@ func VH_OP4_read() {
 	d.eos = vNondetBool("eos")
 	vAssume(d.eos || size < 0 || dd.head < size || (size == 0 && dd.head == 0))
 	vOp4 = &vOP4{d: d}
-	plen := vConcretize(int(vNondetU8("plen")) % 4)
 	p := make([]byte, plen)
 	n, rerr := d.Read(p)
 	vAssert(n >= 0 && n <= plen, "never more bytes than requested")
